@@ -880,8 +880,6 @@ def prop_cases(rng, tier, use_driver=True):
                  (lambda k=k, e=e: None if dsha(bytes.fromhex(spec.get(k)[1:])).hex() == e["sighash"] else
                   {"kind": "spec-vector", "spec_digest": dsha(bytes.fromhex(spec.get(k)[1:])).hex(), "published": e["sighash"]})))
     sigs_valid = tx_valid_signatures()
-    if tier == "quick":
-        sigs_valid = sigs_valid[:40]
     for t, kind, sc, idx, amount, sg, pub in sigs_valid:
         if not sg:
             continue
